@@ -145,8 +145,11 @@ func gen(r *vh.Rand, tier string, n int, emit func(vh.Case)) {
 					op = fmt.Sprintf("cat %d %d", w, f)
 				case x < 75:
 					op = fmt.Sprintf("rootcat %d %d", w, f)
-				case x < 88:
+				case x < 82:
 					op = fmt.Sprintf("pubcat %d", f)
+				case x < 88:
+					op = vh.Pick(r, []string{fmt.Sprintf("touch %d %d", w, f), fmt.Sprintf("fflush %d %d", w, f), fmt.Sprintf("fsync %d %d", w, f),
+						fmt.Sprintf("rootflush %d", w), fmt.Sprintf("lsnames %d", w)})
 				case x < 92:
 					op = fmt.Sprintf("ls %d", w)
 				case x < 96:
@@ -166,8 +169,10 @@ func gen(r *vh.Rand, tier string, n int, emit func(vh.Case)) {
 					op = fmt.Sprintf("close %d %s", w, park)
 					g.parked = park != "-"
 					g.fd = false
-				case x < 92:
+				case x < 89:
 					op = fmt.Sprintf("pubcat %d", f)
+				case x < 94:
+					op = vh.Pick(r, []string{fmt.Sprintf("size %d", w), fmt.Sprintf("fdread %d", w), fmt.Sprintf("fdread %d", w)})
 				default:
 					op = fmt.Sprintf("rootcat %d %d", w, f)
 				}
